@@ -226,8 +226,18 @@ func (c CodeQuery) Exec(ctx *Context, loc *Location, qc QueryContext, qr QueryRe
 		// are not ours to change (the other terms of the query
 		// and, later, the actions work from them), and that
 		// includes swapping in a copy of the event.
+		//
+		// Its own all the way down: a script works on the Go
+		// maps it is given in place.  A condition that wrote to
+		// a bound object otherwise changed it for the sibling
+		// bindings that share it (what one evaluation wrote, the
+		// next saw), and for the terms and actions that come
+		// after.  (The event is left to 'maybeCopyEvent'.)
 		own := make(Bindings, len(bs))
 		for p, v := range bs {
+			if p != "?event" {
+				v = Copy(v)
+			}
 			own[p] = v
 		}
 		maybeCopyEvent(own)
